@@ -323,12 +323,66 @@ package derive
 // isDerivedFile(p): the base name of p is derived.gen.go
 //@ axiom forall d string :: isDerivedFile(joinPath(d, derivedFilename))
 
-// newFileInfos never hands out derived.gen.go for scanning or rewriting (C07 R3).
-//@ func newFileInfos(program *loader.Program, pkgInfo *loader.PackageInfo) (r []*fileInfo)
+// find.go: which files are scanned and which calls are found (C07, C10, C01)
+// isDerivedFile(p) means: the last element of p is derived.gen.go
+//@ axiom [derived-file-by-name] forall p string :: isDerivedFile(p) <==> baseName(p) == derivedFilename
+//@ extern func filepath.Split(path string) (dir string, file string)
+//@ pure
+//@ ensures file == baseName(path)
+//@ extern func (s *token.FileSet) File(p token.Pos) (r *token.File)
+//@ pure
+//@ reads-heap
+//@ extern func (f *token.File) Name() (r string)
+//@ pure
+//@ reads-heap
+//@ extern func (f *ast.File) Pos() (r token.Pos)
+//@ pure
+//@ reads-heap
+//@ extern func (o *types.Object) Pos() (r token.Pos)
+//@ pure
+//@ extern func (i *types.Info) TypeOf(e ast.Expr) (r types.Type)
+//@ pure
+//@ reads-heap
+
+// what go/types and the loader guarantee of a loaded package (trusted; established where packages come from:
+// loader.Program.Package / InitialPackages): no nil object in Uses, no nil file
+//@ ghost-fun infoOK(pi) = pi != nil && pi.Pkg != nil && (forall id *ast.Ident :: id in pi.Uses ==> pi.Uses[id] != nil) && (forall k int :: 0 <= k && k < len(pi.Files) ==> pi.Files[k] != nil)
+// a finder's lists hold calls of plain identifiers only (newCall relies on it)
+//@ ghost-fun callsOK(cs) = forall k int :: 0 <= k && k < len(cs) ==> cs[k] != nil && isType(cs[k].Fun, "*go/ast.Ident")
+//@ inv finder: self.program != nil && self.program.Fset != nil && infoOK(self.pkgInfo) && self.funcNames != nil
+//@ inv finder: callsOK(self.undefined) && callsOK(self.derived)
+//@ func (f *finder) Visit(node ast.Node) (w ast.Visitor)
+//@ assigns f.undefined, f.derived, f.funcNames
+// ast.Walk calls nothing but v.Visit (and Visit of what Visit returns, here always f): it keeps the finder's invariant
+//@ extern func ast.Walk(v ast.Visitor, node ast.Node) ()
+//@ assigns castp(v, finder).undefined, castp(v, finder).derived, castp(v, finder).funcNames
+//@ requires v != nil
+//@ ensures castp(v, finder).funcNames != nil && callsOK(castp(v, finder).undefined) && callsOK(castp(v, finder).derived)
+
+//@ func getInputTypes(pkgInfo *loader.PackageInfo, call *ast.CallExpr) (r []types.Type)
 //@ assigns nothing
+//@ requires pkgInfo != nil && call != nil
+//@ ensures len(r) == len(call.Args)
+//@ loop 1: invariant typs != nil || len(call.Args) == 0
+//@ func newCall(pkgInfo *loader.PackageInfo, expr *ast.CallExpr) (r *call)
+//@ assigns nothing
+//@ requires pkgInfo != nil && expr != nil && isType(expr.Fun, "*go/ast.Ident")
+//@ ensures r != nil && r.Expr == expr
+
+// newFileInfos never hands out derived.gen.go for scanning or rewriting (C07 R3).
+// (finder objects are scratch state of newFileInfos: the frame names their fields at type level)
+//@ func newFileInfos(program *loader.Program, pkgInfo *loader.PackageInfo) (r []*fileInfo)
+//@ assigns any derive.finder.undefined, any derive.finder.derived, any derive.finder.funcNames
+//@ requires program != nil && program.Fset != nil && infoOK(pkgInfo)
 //@ ensures forall i int :: 0 <= i && i < len(r) ==> r[i] != nil && r[i].funcNames != nil && !isDerivedFile(r[i].fullpath)
 //@ ensures forall i int, k int :: 0 <= i && i < len(r) && 0 <= k && k < len(r[i].undefined) ==> r[i].undefined[k] != nil && r[i].undefined[k].Expr != nil
 //@ ensures forall i int, k int :: 0 <= i && i < len(r) && 0 <= k && k < len(r[i].derived) ==> r[i].derived[k] != nil && r[i].derived[k].Expr != nil
+//@ loop 1: invariant forall i int :: 0 <= i && i < len(files) ==> files[i] != nil && files[i].funcNames != nil && !isDerivedFile(files[i].fullpath)
+//@ loop 1: invariant forall i int, k int :: 0 <= i && i < len(files) && 0 <= k && k < len(files[i].undefined) ==> files[i].undefined[k] != nil && files[i].undefined[k].Expr != nil
+//@ loop 1: invariant forall i int, k int :: 0 <= i && i < len(files) && 0 <= k && k < len(files[i].derived) ==> files[i].derived[k] != nil && files[i].derived[k].Expr != nil
+//@ loop 2: invariant f != nil && f.funcNames != nil && callsOK(f.undefined) && callsOK(f.derived)
+//@ loop 3: invariant len(undefined) == len(f.undefined) && forall k int :: 0 <= k && k < $i ==> undefined[k] != nil && undefined[k].Expr != nil
+//@ loop 4: invariant len(derived) == len(f.derived) && forall k int :: 0 <= k && k < $i ==> derived[k] != nil && derived[k].Expr != nil
 
 //@ func newPrinter(pkgName string) (r Printer)
 //@ assigns nothing
@@ -350,8 +404,8 @@ package derive
 //@ reads-heap
 
 //@ func newPackage(program *loader.Program, pkgInfo *loader.PackageInfo, plugins []Plugin, autoname, dedup bool) (r *pkg, err error)
-//@ assigns fs, foff, handledBy, synced, any ast.CallExpr.Fun
-//@ requires program != nil && pkgInfo != nil && pkgInfo.Pkg != nil
+//@ assigns fs, foff, handledBy, synced, any ast.CallExpr.Fun, any derive.finder.undefined, any derive.finder.derived, any derive.finder.funcNames
+//@ requires program != nil && program.Fset != nil && infoOK(pkgInfo)
 //@ requires [plugins-sorted] forall a int, b int :: 0 <= a && a < b && b < len(plugins) ==> !before(plugins[b], plugins[a])
 //@ requires forall k int :: 0 <= k && k < len(plugins) ==> plugins[k] != nil
 //@ ghost-on-return: synced = false
@@ -393,19 +447,19 @@ package derive
 //@ func (p *Plugins) Load(paths []string) (r Program, err error)
 //@ assigns nothing
 //@ requires [collection-sorted] p != nil && sortedPlugins(castp(p, plugins).plugins) && nonNilPlugins(castp(p, plugins).plugins)
-//@ ensures [program-sorted] err == nil ==> r != nil && sortedPlugins(castp(r, program).plugins) && nonNilPlugins(castp(r, program).plugins) && castp(r, program).program != nil
+//@ ensures [program-sorted] err == nil ==> r != nil && sortedPlugins(castp(r, program).plugins) && nonNilPlugins(castp(r, program).plugins) && castp(r, program).program != nil && castp(r, program).program.Fset != nil
 //@ ensures [flags-kept] err == nil ==> castp(r, program).autoname == castp(p, plugins).autoname && castp(r, program).dedup == castp(p, plugins).dedup
 
 //@ func (p *plugins) Load(paths []string) (r Program, err error)
 //@ assigns nothing
 //@ ensures [plugins-kept] err == nil ==> castp(r, program).plugins == p.plugins
-//@ ensures [program-sorted] err == nil ==> r != nil && sortedPlugins(castp(r, program).plugins) && nonNilPlugins(castp(r, program).plugins) && castp(r, program).program != nil
+//@ ensures [program-sorted] err == nil ==> r != nil && sortedPlugins(castp(r, program).plugins) && nonNilPlugins(castp(r, program).plugins) && castp(r, program).program != nil && castp(r, program).program.Fset != nil
 //@ ensures [flags-kept] err == nil ==> castp(r, program).autoname == p.autoname && castp(r, program).dedup == p.dedup
 
 // program: plugins are sorted (established by NewPlugins, kept by Load)
 //@ inv program: forall a int, b int :: 0 <= a && a < b && b < len(self.plugins) ==> !before(self.plugins[b], self.plugins[a])
 //@ inv program: forall k int :: 0 <= k && k < len(self.plugins) ==> self.plugins[k] != nil
-//@ inv program: self.program != nil
+//@ inv program: self.program != nil && self.program.Fset != nil
 
 // Writing generated code touches only generator-internal state (printer, type tables).
 //@ func (pkg *pkg) Generate() (generated bool, err error)
@@ -427,22 +481,25 @@ package derive
 
 //@ func load(paths []string) (r *loader.Program, err error)
 //@ assigns nothing
-//@ ensures err == nil ==> r != nil
+//@ ensures err == nil ==> r != nil && r.Fset != nil
 
 //@ extern func (p *loader.Program) Package(path string) (r *loader.PackageInfo)
 //@ pure
 //@ reads-heap
-//@ ensures r != nil && r.Pkg != nil
+//@ ensures infoOK(r)
 
 //@ func (pg *program) generatePackage(pkgInfo *loader.PackageInfo) (err error)
-//@ assigns fs, foff, handledBy, synced, any ast.CallExpr.Fun, any derive.printer.hasContent, any derive.printer.indent, any derive.printer.w, any derive.printer.imports, any derive.typesMap.generated, any derive.typesMap.funcToTyps, any derive.typesMap.typss
-//@ requires pkgInfo != nil && pkgInfo.Pkg != nil
+//@ assigns fs, foff, handledBy, synced, any ast.CallExpr.Fun, any derive.finder.undefined, any derive.finder.derived, any derive.finder.funcNames, any derive.printer.hasContent, any derive.printer.indent, any derive.printer.w, any derive.printer.imports, any derive.typesMap.generated, any derive.typesMap.funcToTyps, any derive.typesMap.typss
+//@ requires infoOK(pkgInfo)
 //@ ensures [derived-file-synced] err == nil ==> synced
 //@ ensures [user-files-intact] (!pg.autoname && !pg.dedup) ==> forall q string :: !isDerivedFile(q) ==> ((q in fs) <==> (q in old(fs))) && fs[q] == old(fs)[q]
 //@ ensures [only-derived-file-created-or-deleted] forall q string :: !isDerivedFile(q) ==> ((q in fs) <==> (q in old(fs)))
 //@ assert-at-call derive.pkg.Print: derive.pkg.HasContent(pkgGen)
 //@ assert-at-call derive.pkg.Delete: !derive.pkg.HasContent(pkgGen)
-//@ loop 1: invariant thisprogram != nil && pkgInfo != nil && pkgInfo.Pkg != nil
+//@ loop 1: invariant thisprogram != nil && thisprogram.Fset != nil
+//@ loop 1: invariant pkgInfo != nil && pkgInfo.Pkg != nil
+//@ loop 1: invariant forall id *ast.Ident :: id in pkgInfo.Uses ==> pkgInfo.Uses[id] != nil
+//@ loop 1: invariant forall k int :: 0 <= k && k < len(pkgInfo.Files) ==> pkgInfo.Files[k] != nil
 //@ loop 1: invariant !generated ==> synced
 //@ loop 1: invariant (!pg.autoname && !pg.dedup) ==> forall q string :: !isDerivedFile(q) ==> ((q in fs) <==> (q in old(fs))) && fs[q] == old(fs)[q]
 //@ loop 1: invariant forall q string :: !isDerivedFile(q) ==> ((q in fs) <==> (q in old(fs)))
@@ -531,10 +588,10 @@ package derive
 //@ extern func (p *loader.Program) InitialPackages() (r []*loader.PackageInfo)
 //@ pure
 //@ reads-heap
-//@ ensures forall i int :: 0 <= i && i < len(r) ==> r[i] != nil && r[i].Pkg != nil
+//@ ensures forall i int :: 0 <= i && i < len(r) ==> infoOK(r[i])
 
 //@ func (pg *program) Generate() (err error)
-//@ assigns fs, foff, handledBy, synced, any ast.CallExpr.Fun, any derive.printer.hasContent, any derive.printer.indent, any derive.printer.w, any derive.printer.imports, any derive.typesMap.generated, any derive.typesMap.funcToTyps, any derive.typesMap.typss
+//@ assigns fs, foff, handledBy, synced, any ast.CallExpr.Fun, any derive.finder.undefined, any derive.finder.derived, any derive.finder.funcNames, any derive.printer.hasContent, any derive.printer.indent, any derive.printer.w, any derive.printer.imports, any derive.typesMap.generated, any derive.typesMap.funcToTyps, any derive.typesMap.typss
 //@ ensures [user-files-intact] (!pg.autoname && !pg.dedup) ==> forall q string :: !isDerivedFile(q) ==> ((q in fs) <==> (q in old(fs))) && fs[q] == old(fs)[q]
 //@ ensures [only-derived-file-created-or-deleted] forall q string :: !isDerivedFile(q) ==> ((q in fs) <==> (q in old(fs)))
 //@ loop 1: invariant (!pg.autoname && !pg.dedup) ==> forall q string :: !isDerivedFile(q) ==> ((q in fs) <==> (q in old(fs))) && fs[q] == old(fs)[q]
@@ -542,7 +599,7 @@ package derive
 
 // the interface view main.go uses
 //@ func (pg *Program) Generate() (err error)
-//@ assigns fs, foff, handledBy, synced, any ast.CallExpr.Fun, any derive.printer.hasContent, any derive.printer.indent, any derive.printer.w, any derive.printer.imports, any derive.typesMap.generated, any derive.typesMap.funcToTyps, any derive.typesMap.typss
-//@ requires [program-sorted] pg != nil && sortedPlugins(castp(pg, program).plugins) && nonNilPlugins(castp(pg, program).plugins) && castp(pg, program).program != nil
+//@ assigns fs, foff, handledBy, synced, any ast.CallExpr.Fun, any derive.finder.undefined, any derive.finder.derived, any derive.finder.funcNames, any derive.printer.hasContent, any derive.printer.indent, any derive.printer.w, any derive.printer.imports, any derive.typesMap.generated, any derive.typesMap.funcToTyps, any derive.typesMap.typss
+//@ requires [program-sorted] pg != nil && sortedPlugins(castp(pg, program).plugins) && nonNilPlugins(castp(pg, program).plugins) && castp(pg, program).program != nil && castp(pg, program).program.Fset != nil
 //@ ensures [user-files-intact] (!castp(pg, program).autoname && !castp(pg, program).dedup) ==> forall q string :: !isDerivedFile(q) ==> ((q in fs) <==> (q in old(fs))) && fs[q] == old(fs)[q]
 //@ ensures [only-derived-file-created-or-deleted] forall q string :: !isDerivedFile(q) ==> ((q in fs) <==> (q in old(fs)))
